@@ -1,9 +1,9 @@
 (* Extraction of the C07 / C17 executable model (model/PolyCore.v) to OCaml.  The generic functions are
    extracted as they are (they take the `fops` records as arguments); the oracle driver ocaml/c07.ml
    instantiates them with `bfe_ops` / `xfe_ops`.
-   NTT: `stub_ntt`/`stub_intt` of model/PolyNttStub.v until model/Ntt.v (C06) is available. *)
+   NTT: `ntt_b`/`intt_b`/`ntt_x`/`intt_x` of model/Ntt.v (the C06 mirror of math/ntt.rs). *)
 From Coq Require Import Extraction ExtrOcamlBasic ExtrOcamlZBigInt ZArith List.
-From TF Require Import Word BFieldGen BField XField FieldOps PolyGen PolyCore PolyNttStub.
+From TF Require Import Word BFieldGen BField XField FieldOps PolyGen PolyCore Ntt.
 Extraction Language OCaml.
 (* Z.pow / Z.log2 / Z.testbit are not covered by ExtrOcamlZBigInt; the structural versions dominate the run time of
    the Word.v operations (`x mod 2 ^ 64` is evaluated in every field operation).  Map them to zarith. *)
@@ -13,7 +13,7 @@ Extract Constant Z.testbit => "(fun x i -> if Big_int_Z.sign_big_int i < 0 then 
 Extraction "../ocaml/gen_c07/model.ml"
   P bfe_new bfe_value bfe_zero bfe_one bfe_mul bfe_add xscale xlift xunlift
   bfe_ops xfe_ops bb_act xb_act xx_act fzero fone fadd fsub fmul fneg finv feqb ffrom_u64 smul slift
-  stub_ntt stub_intt
+  ntt_b intt_b ntt_x intt_x
   FAST_MULTIPLY_CUTOFF_THRESHOLD SQUARE_FAST_CUTOFF_LEN
   poly_new poly_zero poly_one poly_from_constant poly_x_to_the poly_from_vec
   poly_normalize poly_degree poly_coefficients poly_into_coefficients poly_leading_coefficient
